@@ -39,6 +39,10 @@ pub enum VRefused {
     /// the removal of the data region is refused, so the forced import fails - and must not have
     /// discarded anything (e.g. the deleted-slot region) on the way
     ForcedImportHeld,
+    /// commit mode: a stamp without a change record (plain stamped_write) on top of an older record,
+    /// uncommitted edits, then rollback_before: refused (broken chain) and without effect - which the
+    /// continuation commit + rollback makes visible. Ends the history.
+    RollbackBeforeBrokenChain { seed: u32 },
 }
 
 #[derive(Clone, Debug, Serialize, Deserialize)]
@@ -364,6 +368,48 @@ where
                             }
                         }
                     }
+                    VRefused::RollbackBeforeBrokenChain { seed } => {
+                        let s0 = sut.model.stamp;
+                        if !sut.commit_mode || sut.model.dirty_since_commit || cfg.retention == 0 || !sut.model.files.contains_key(&s0) {
+                            continue;
+                        }
+                        use vecdb::Stamp;
+                        // a newer stamp that has no change record
+                        sut.vm().stamped_write(Stamp::new(s0 + 1)).map_err(|e| format!("{tag} op #{i}: stamped_write: {e}"))?;
+                        sut.model.stamp = s0 + 1;
+                        sut.model.stored = sut.model.items.len();
+                        sut.model.unflushed = true;
+                        sut.observe().map_err(|e| format!("{tag} op #{i}: after stamped_write: {e}"))?;
+                        let committed = sut.model.items.clone();
+                        // uncommitted work
+                        for k in 0..3u32 {
+                            sut.apply(&VOp::Push { seed: seed.wrapping_add(k) }, obs).map_err(|e| format!("{tag} op #{i}: push: {e}"))?;
+                        }
+                        match sut.vm().rollback_before(Stamp::new(s0)) {
+                            Err(_) => obs.label("refused:rollback_before-broken-chain-with-pending-edits"),
+                            Ok(_) => return Ok(()), // not a refusal on this tree: nothing to assert
+                        }
+                        sut.observe().map_err(|e| format!("{tag} op #{i}: the refused rollback_before changed the vector (pending edits included): {e}"))?;
+                        // the continuation: commit, then undo it - must land on the state before the commit
+                        sut.vm()
+                            .stamped_write_with_changes(Stamp::new(s0 + 2))
+                            .map_err(|e| format!("{tag} op #{i}: commit after the refused rollback_before failed: {e}"))?;
+                        sut.model.stamp = s0 + 2;
+                        sut.model.stored = sut.model.items.len();
+                        sut.model.dirty_since_commit = false;
+                        sut.observe().map_err(|e| format!("{tag} op #{i}: after the commit that follows the refused rollback_before: {e}"))?;
+                        sut.vm().rollback().map_err(|e| format!("{tag} op #{i}: rollback of the commit that follows the refused rollback_before failed: {e}"))?;
+                        sut.model.items = committed;
+                        sut.model.stamp = s0 + 1;
+                        sut.model.stored = sut.model.stored.min(sut.model.items.len());
+                        sut.model.stored_dirty = true;
+                        sut.model.unflushed = true;
+                        sut.observe().map_err(|e| {
+                            format!("{tag} op #{i}: rolling back the commit made after a REFUSED rollback_before does not restore the state before that commit (the refused call had an effect): {e}")
+                        })?;
+                        obs.set_nontrivial();
+                        return Ok(());
+                    }
                     VRefused::ImportOtherFormat => {
                         if sut.commit_mode && sut.model.dirty_since_commit {
                             continue;
@@ -445,6 +491,7 @@ impl Prop for P {
                 2 => (0u8..3, any::<bool>()).prop_map(|(bump, forced_after)| VRefused::ImportOtherVersion { bump, forced_after }),
                 2 => Just(VRefused::ImportOtherFormat),
                 2 => Just(VRefused::ForcedImportHeld),
+                2 => any::<u32>().prop_map(|seed| VRefused::RollbackBeforeBrokenChain { seed }),
             ];
             let vrop = prop_oneof![
                 5 => vop_strategy(mix).prop_map(VROp::Plain),
@@ -487,6 +534,8 @@ impl Prop for P {
             "refused:import-version",
             "refused:import-format",
             "rollback-refused",
+            "refused:forced-import-while-clone-held",
+            "refused:rollback_before-broken-chain-with-pending-edits",
         ]
     }
 }
